@@ -6,6 +6,8 @@ import Verif.Drv.FileScan
 import Verif.Drv.FixSched
 import Verif.Drv.LeanMark
 import Verif.Drv.WellFormed
+import Verif.Drv.Codec
+import Verif.Drv.FrontMatter
 
 /-- model name → request handler (one request line in, one answer line out). -/
 def models : List (String × (String → String)) :=
@@ -18,7 +20,9 @@ def models : List (String × (String → String)) :=
    ("leanmark-html", Verif.Drv.LeanMark.stepHtml),
    ("leanmark-events", Verif.Drv.LeanMark.stepEvents),
    ("leanmark-inscope", Verif.Drv.LeanMark.stepInScope),
-   ("wf", Verif.Drv.WellFormed.step)]
+   ("wf", Verif.Drv.WellFormed.step),
+   ("codec", Verif.Drv.Codec.step),
+   ("frontmatter", Verif.Drv.FrontMatter.step)]
 
 partial def loop (h : IO.FS.Stream) (out : IO.FS.Stream) (f : String → String) : IO Unit := do
   let line ← h.getLine
